@@ -280,6 +280,11 @@ def prove(goal, hyps=None, timeout_ms=20000, cell_limit=4096, symbols=None, use_
     if z3.is_true(goal):
         STATS["syntactic"] += 1
         return Verdict("unsat", syntactic=True)
+    if use_ctx and not hyps[len(CTX.assumptions) + len(CTX.path):] and is_linear(goal) and not ite_atoms([goal]):
+        # purely linear goal: refute its negation on the incremental linear path solver
+        if CTX.check_lin([z3.Not(goal)]) == "unsat":
+            STATS["queries"] += 1
+            return Verdict("unsat", ms=(time.time() - t0) * 1000, ncells=1)
     goal = canonical_atoms(goal)
     atoms = ite_atoms([goal])
     try:
